@@ -407,6 +407,7 @@ impl Engine for C03 {
                                 }
                             }
                             Err(e) if e.starts_with(UNDECODABLE) => out.push(Violation::new("T2", "reader-ok-on-undecodable-input", "read", format!("the delivered bytes are not UTF-8 text ({e}) but read returned Ok"))),
+                            Err(_) if src.delivered().is_empty() => out.push(Violation::new("T2", "reader-ok-on-empty-input", "read", "the medium delivered no byte (a Tiny v2 text starts with its header line), read returned Ok".to_string())),
                             Err(_) => st.probe("lenient_accept"),
                         }
                         let io_err = src.stats.fired.iter().any(|k| k.starts_with("eio"));
